@@ -208,28 +208,111 @@ class Evaluator:
         return None
 
 
-def flag_cases(fn, make_evaluator, limit=4):
-    """Case split on named flags: [var_values, ...].
+def _logic(fn, nid):
+    """('!', x) / ('&&', l, r) / ('||', l, r) / ('leaf', nid) - the builtin logical structure of a condition"""
+    j = fn.skip(nid)
+    n = fn.nodes[j]
+    if n['k'] == 'un' and n.get('op') == '!':
+        return ('!', n['e'])
+    if n['k'] == 'bin' and n.get('op') in ('&&', '||'):
+        return (n['op'], n['l'], n['r'])
+    return ('leaf', j)
 
-    A local that is initialised once and never re-assigned has one value on a whole path; when a branch condition tests it twice, folding
-    each test on its own creates paths on which the flag is true at the first test and false at the second.  For every such local whose
-    initialiser the evaluator cannot fold, the function is explored once per value."""
-    base = make_evaluator({})
-    flags = []
+
+def _flag_leaves(fn, nid, candidates, out=None, depth=0, nids=None):
+    """decl ids of the candidate boolean locals that are leaves of the logical structure of the condition"""
+    out = out if out is not None else []
+    if depth > 8:
+        return out
+    lg = _logic(fn, nid)
+    if lg[0] == 'leaf':
+        n = fn.nodes[lg[1]]
+        if n['k'] == 'var' and candidates(n):
+            out.append(n['decl'])
+            if nids is not None:
+                nids[n['decl']] = lg[1]
+    else:
+        for x in lg[1:]:
+            _flag_leaves(fn, x, candidates, out, depth + 1, nids)
+    return out
+
+
+def _cond3(fn, nid, flagvals, leafval, depth=0):
+    """three-valued value of a condition: named flags from flagvals, every other leaf from leafval(nid)"""
+    if depth > 8:
+        return None
+    lg = _logic(fn, nid)
+    if lg[0] == 'leaf':
+        n = fn.nodes[lg[1]]
+        if n['k'] == 'var' and n.get('decl') in flagvals:
+            return flagvals[n['decl']]
+        v = leafval(lg[1])
+        return v if isinstance(v, bool) else None
+    if lg[0] == '!':
+        v = _cond3(fn, lg[1], flagvals, leafval, depth + 1)
+        return None if v is None else (not v)
+    l = _cond3(fn, lg[1], flagvals, leafval, depth + 1)
+    r = _cond3(fn, lg[2], flagvals, leafval, depth + 1)
+    if lg[0] == '&&':
+        if l is False or r is False:
+            return False
+        return True if (l is True and r is True) else None
+    if l is True or r is True:
+        return True
+    return False if (l is False and r is False) else None
+
+
+def _flag_step(fn, cond, flagvars, fl, leafval):
+    """(value of the condition or None, {polarity: flag store after taking that edge}) for a two-way branch"""
+    known = dict(fl)
+    nids = {}
+    leaves = set(_flag_leaves(fn, cond, lambda n: n.get('decl') in flagvars, nids=nids))
+    if not leaves:
+        return None, {}
+    v = _cond3(fn, cond, known, leafval)
+    if isinstance(v, bool):
+        return v, {}
+    # a flag whose initialiser the rule's evaluator folds is not unknown
+    unknown = [d for d in leaves if d not in known and not isinstance(leafval(nids[d]), bool)]
+    upd = {}
+    if len(unknown) == 1:
+        d = unknown[0]
+        vt = _cond3(fn, cond, known | {d: True}, leafval)
+        vf = _cond3(fn, cond, known | {d: False}, leafval)
+        if isinstance(vt, bool) and isinstance(vf, bool) and vt != vf:
+            # the flag alone decides this branch: each edge fixes its value for the rest of the path
+            upd = {vt: fl | {(d, True)}, vf: fl | {(d, False)}}
+        elif isinstance(vt, bool) and vf is None:
+            # e.g. `flag || other()`: the false edge implies !flag (when vt is True), the true edge says nothing
+            upd = {(not vt): fl | {(d, False)}}
+        elif isinstance(vf, bool) and vt is None:
+            upd = {(not vf): fl | {(d, True)}}
+    return None, upd
+
+
+def named_flags(fn):
+    """decl ids of the boolean locals that are initialised once, never re-assigned, and tested (inside the logical structure of the condition)
+    by two or more branches"""
+    cached = getattr(fn, '_named_flags', None)
+    if cached is not None:
+        return cached
+
+    def candidate(n):
+        return n.get('vk') == 'local' and not n.get('outer') and fn.single_def(n['decl']) is not None \
+            and (fn.defs()[n['decl']].get('t') or '').replace('const ', '') == 'bool'
+    count = {}
     for b in fn.blocks.values():
         t = b.get('term')
-        if not (t and 'cond' in t) or t['k'] == 'switch':
+        if not (t and 'cond' in t) or t['k'] == 'switch' or len(b['succs']) != 2:
             continue
-        for j in fn.walk(t['cond']):
-            n = fn.nodes[j]
-            if n['k'] == 'var' and n.get('vk') == 'local' and not n.get('outer') and (n.get('t') or '').replace('const ', '') == 'bool' \
-                    and n['decl'] not in flags and fn.single_def(n['decl']) is not None and not isinstance(base.ev(j, None), bool):
-                flags.append(n['decl'])
-    flags = flags[:limit]
-    cases = [{}]
-    for d in flags:
-        cases = [{**c, d: v} for c in cases for v in (True, False)]
-    return cases
+        for d in set(_flag_leaves(fn, t['cond'], candidate)):
+            count[d] = count.get(d, 0) + 1
+    out = frozenset(d for d, c in count.items() if c >= 2)
+    try:
+        fn._named_flags = out
+    except Exception:
+        pass
+    return out
 
 
 def explore(fn, init, transfer=None, evalcond=None, refine=None, max_states=200000, edge_filter=None, record_visits=None):
@@ -242,15 +325,24 @@ def explore(fn, init, transfer=None, evalcond=None, refine=None, max_states=2000
     (block, edge index) and info = {'states': n, 'edges': n}."""
     if fn.entry is None:
         raise AnalysisBroken('no CFG for %s' % fn.display())
-    start = (fn.entry, init)
+    # named flags: a once-initialised boolean local that two or more branches test has one value on a whole path; the value chosen at its first
+    # unfolded test is carried (beside the caller's state) to the later tests, so the infeasible "true here, false there" paths are not walked
+    flagvars = named_flags(fn)
+    start = (fn.entry, init, frozenset())
     parent = {start: None}
     q = deque([start])
     exits = {}
     nedges = 0
     while q:
         cur = q.popleft()
-        bid, st = cur
+        bid, st, fl = cur
         blk = fn.blocks[bid]
+        if flagvars and fl:
+            for e in blk['elems']:
+                n_ = fn.nodes[e]
+                if n_['k'] == 'decl' and any(d_['var'] in flagvars for d_ in n_['decls']):
+                    # the declaration is executed again (loop body): a new value
+                    fl = frozenset(x for x in fl if not any(d_['var'] == x[0] for d_ in n_['decls']))
         if transfer:
             for e in blk['elems']:
                 ns = transfer(fn, e, st)
@@ -263,6 +355,7 @@ def explore(fn, init, transfer=None, evalcond=None, refine=None, max_states=2000
         t = blk.get('term')
         succs = blk['succs']
         choices = []
+        flag_upd = {}
         if t and 'cond' in t and len(succs) >= 2:
             k = t['k']
             v = evalcond(fn, t['cond'], st) if evalcond else None
@@ -283,6 +376,10 @@ def explore(fn, init, transfer=None, evalcond=None, refine=None, max_states=2000
                             continue
                     choices.append((i, s, ('case', lab)))
             elif len(succs) == 2:
+                if flagvars and not isinstance(v, bool):
+                    fv, flag_upd = _flag_step(fn, t['cond'], flagvars, fl, lambda leaf, st=st: evalcond(fn, leaf, st) if evalcond else None)
+                    if isinstance(fv, bool):
+                        v = fv
                 for i, s in enumerate(succs):
                     if s is None:
                         continue
@@ -302,7 +399,8 @@ def explore(fn, init, transfer=None, evalcond=None, refine=None, max_states=2000
                 st2 = refine(fn, t['cond'], pol, st)
                 if st2 is None:
                     continue
-            nxt = (s, st2)
+            fl2 = flag_upd.get(pol, fl) if isinstance(pol, bool) else fl
+            nxt = (s, st2, fl2)
             nedges += 1
             if nxt not in parent:
                 parent[nxt] = (cur, i)
@@ -451,28 +549,44 @@ def reachable_blocks(fn, evalcond):
 
 
 def path_avoiding(fn, start, goal, avoid, evalcond=None, within=None):
-    """a block path start -> goal that passes none of the blocks in `avoid` (branch conditions folded by evalcond, stateless), or None"""
-    seen, stack = set(), [(start, [start])]
+    """a block path start -> goal that passes none of the blocks in `avoid` (branch conditions folded by evalcond, stateless), or None.
+    Named flags (see explore) keep the value chosen at their first test along the path."""
+    flagvars = named_flags(fn)
+    seen, stack = set(), [(start, [start], frozenset())]
     while stack:
-        x, path = stack.pop()
-        if x in seen or x in avoid:
+        x, path, fl = stack.pop()
+        if (x, fl) in seen or x in avoid:
             continue
-        seen.add(x)
+        seen.add((x, fl))
         blk = fn.blocks[x]
         succs = blk['succs']
         t = blk.get('term')
-        if evalcond and t and 'cond' in t and len(succs) == 2 and t['k'] != 'switch':
-            v = evalcond(fn, t['cond'], None)
-            nxt = [s for i, s in enumerate(succs) if s is not None and not (isinstance(v, bool) and v != (i == 0))]
+        if flagvars and fl:
+            for e in blk['elems']:
+                n_ = fn.nodes[e]
+                if n_['k'] == 'decl' and any(d_['var'] in flagvars for d_ in n_['decls']):
+                    fl = frozenset(y for y in fl if not any(d_['var'] == y[0] for d_ in n_['decls']))
+        if t and 'cond' in t and len(succs) == 2 and t['k'] != 'switch':
+            v = evalcond(fn, t['cond'], None) if evalcond else None
+            upd = {}
+            if flagvars and not isinstance(v, bool):
+                fv, upd = _flag_step(fn, t['cond'], flagvars, fl, lambda leaf: evalcond(fn, leaf, None) if evalcond else None)
+                if isinstance(fv, bool):
+                    v = fv
+            nxt = []
+            for i, s in enumerate(succs):
+                if s is None or (isinstance(v, bool) and v != (i == 0)):
+                    continue
+                nxt.append((s, upd.get(i == 0, fl)))
         elif evalcond and t and 'cond' in t and t['k'] == 'switch':
-            nxt = [s for i, s in _switch_choices(fn, t, succs, evalcond(fn, t['cond'], None))]
+            nxt = [(s, fl) for i, s in _switch_choices(fn, t, succs, evalcond(fn, t['cond'], None))]
         else:
-            nxt = [s for s in succs if s is not None]
-        for sx in nxt:
+            nxt = [(s, fl) for s in succs if s is not None]
+        for sx, fl2 in nxt:
             if sx == goal:
                 return path
             if within is None or sx in within:
-                stack.append((sx, path + [sx]))
+                stack.append((sx, path + [sx], fl2))
     return None
 
 
